@@ -42,6 +42,15 @@ def cases(tier, seed):
     for k in range(n_rand):
         out.append(dict(gen='hw_words', dtype=UDT[k % 4], ndim=int(rs.integers(1, 5)), nb_words=int(rs.integers(1, 9)),
                         sub=int(rs.integers(2 ** 62))))
+    # wide groups and saturated words: the group sum reaches nb_words * bits (256, 512, ... - the limits of narrow accumulators)
+    for dt in UDT:
+        bits = np.dtype(dt).itemsize * 8
+        for nbw in sorted(set([256 // bits, 2 * 256 // bits, 65536 // bits if 65536 // bits <= 4096 else 4096, 33, 17, 100])):
+            if nbw >= 1:
+                out.append(dict(gen='hw_words', dtype=dt, ndim=int(rs.integers(1, 4)), nb_words=int(nbw), saturated=True, sub=int(rs.integers(2 ** 62)), must=nbw * bits in (256, 512)))
+    for k in range(n_rand // 3):
+        out.append(dict(gen='hw_words', dtype=UDT[k % 4], ndim=int(rs.integers(1, 4)), nb_words=int(rs.choice([9, 12, 16, 31, 32, 33, 64, 128, 255, 256, 257])),
+                        saturated=bool(k % 2), sub=int(rs.integers(2 ** 62))))
     for k in range(n_rand // 2):
         out.append(dict(gen='hw_random', dtype=UDT[2 + k % 2], n=2000 if tier == 'quick' else 20000, sub=int(rs.integers(2 ** 62))))
     for k in range(n_rand):
@@ -114,7 +123,17 @@ def run_case(case):
         axis = int(rng.integers(0, ndim))
         shape = [int(rng.integers(1, 5)) for _ in range(ndim)]
         shape[axis] = int(rng.integers(k, 3 * k + 2))
-        arr = _ro(rng.integers(0, np.iinfo(dt).max, shape, dtype=dt, endpoint=True))
+        a0 = rng.integers(0, np.iinfo(dt).max, shape, dtype=dt, endpoint=True)
+        if case.get('saturated'):
+            # whole groups of all-ones / all-zero words, and words with a single bit cleared
+            pick = rng.integers(0, 4, shape)
+            mx = np.array(np.iinfo(dt).max, dtype=dt)
+            a0 = np.where(pick == 0, a0, np.where(pick == 1, mx, np.where(pick == 2, np.array(0, dtype=dt), mx - np.array(1, dtype=dt)))).astype(dt)
+            sl = [slice(None)] * ndim
+            sl[axis] = slice(0, k)
+            a0[tuple(sl)] = np.array(np.iinfo(dt).max, dtype=dt)             # the first group of every line is saturated
+            t.count('saturated_group_cases')
+        arr = _ro(a0)
         use_default_axis = axis == ndim - 1 and rng.integers(2) == 1
         m = scared.HammingWeight(nb_words=k, expected_dtype=dt)
         got = m(arr) if use_default_axis else m(arr, axis=axis)
